@@ -290,7 +290,8 @@ def Ghost.setil (g : Ghost) (b : Bool) (res : String) : Ghost × Option String :
     if target != g.mode && g.nChunks != 0 then
       ({ g with mode := target, tainted := true },
         some s!"MODE: setInterleaving({b}) changed the policy while {g.nChunks} chunks are queued")
-    else ({ g with mode := target, pairs := [], epochs := [], cached := none, pushedSinceCached := false }, none)
+    -- the policy changes only with an empty queue: whatever was popped last has no queued continuation to be kept together with
+    else ({ g with mode := target, pairs := [], epochs := [], cached := none, pushedSinceCached := false, lastPop := none }, none)
   else if res == "eNonEmpty" then
     if g.nChunks == 0 then (g, some s!"MODE: setInterleaving({b}) refused although nothing is queued") else (g, none)
   else (g, none)
